@@ -34,6 +34,7 @@ fn call(service: &VarlinkService, req: &Value) -> (Vec<Value>, bool, bool) {
     let mut b = serde_json::to_vec(req).unwrap();
     b.push(0);
     let mut w: Vec<u8> = Vec::new();
+    let _wd = crate::conn::watched("VarlinkService::handle", &[b.clone()]);
     let r = std::panic::catch_unwind(std::panic::AssertUnwindSafe(|| service.handle(&mut b.as_slice(), &mut w, None)));
     let (msgs, _) = split_nul(&w);
     let replies = msgs.iter().map(|m| serde_json::from_slice(m).unwrap_or(json!({"NOT-JSON": lossy(m)}))).collect();
